@@ -51,6 +51,8 @@ def cases(tier, seed):
     for c in (1, 2, 3, 4, 7, 8, 9, 10, 11, 12, 13):
         cs.append({'spec': 3, 'h': 1, 'c': c, 'p': 3, 'salt': hx(salts[0]), 'cnt': 0x20})
     cs.append({'stored': True})
+    for i in range(6):
+        cs.append({'reuse': i, 'seed': seed})
     cs.append({'gpg': True})
     return cs
 
@@ -59,6 +61,8 @@ def run_case(ctx, d):
     from pgpy.packet.fields import String2Key
     if d.get('stored'):
         return _stored(ctx)
+    if 'reuse' in d:
+        return _reuse(ctx, d)
     if d.get('gpg'):
         return _gpg(ctx)
     if 'plen' in d:
@@ -104,6 +108,44 @@ def run_case(ctx, d):
         ctx.fail('s2k-mismatch', {'case': d, 'passphrase': pn, 'got': hx(got), 'expected': hx(exp)})
     if len(ctx.samples) < 4:
         ctx.sample({'case': d, 'passphrase': pn, 'key': hx(got)})
+
+
+def _reuse(ctx, d):
+    """one String2Key object used for a sequence of derivations with changing passphrase / salt / count / hash / cipher: every result must be the
+    reference value for the parameters in force at that moment (no value may survive from an earlier derivation)"""
+    from pgpy.packet.fields import String2Key
+    r = ctx.rng('reuse', d['reuse'], d['seed'])
+    s = String2Key()
+    s.usage = 254
+    state = {'spec': 3, 'h': 8, 'c': 9, 'salt': b'saltsalt', 'cnt': 0x10, 'pw': 'first'}
+    nk = {7: 16, 8: 24, 9: 32, 3: 16, 2: 24}
+    for step in range(40):
+        what = r.choice(['pw', 'pw', 'salt', 'cnt', 'h', 'c', 'spec', 'same'])
+        if what == 'pw':
+            state['pw'] = r.choice(['first', 'second', '', 'first', 'x' * 70])
+        elif what == 'salt':
+            state['salt'] = bytes(r.getrandbits(8) for _ in range(8))
+        elif what == 'cnt':
+            state['cnt'] = r.choice([0, 0x10, 0x20, 0x31])
+        elif what == 'h':
+            state['h'] = r.choice([2, 8, 10, 1])
+        elif what == 'c':
+            state['c'] = r.choice([7, 8, 9, 3, 2])
+        elif what == 'spec':
+            state['spec'] = r.choice([0, 1, 3])
+        s.encalg = state['c']
+        s.specifier = state['spec']
+        s.halg = state['h']
+        s.salt = bytearray(state['salt'])
+        s.count = state['cnt']
+        got = bytes(s.derive_key(state['pw']))
+        exp = sym.s2k(state['spec'], state['h'], state['salt'], state['cnt'], state['pw'], nk[state['c']])
+        ctx.count('evaluations')
+        ctx.count('derive_compared')
+        ctx.count('reuse_steps')
+        if got != exp:
+            ctx.fail('s2k-object-reuse-mismatch', {'step': step, 'changed': what, 'state': {k: (hx(v) if isinstance(v, bytes) else v) for k, v in state.items()}, 'got': hx(got), 'expected': hx(exp)})
+    ctx.nontrivial(d)
 
 
 def _stored(ctx):
